@@ -13,6 +13,11 @@ class AnchorMissing(Exception):
 
 class Program:
     def __init__(self, facts):
+        from . import anchors
+
+        self.renamed = anchors.normalise(facts) if not facts.get("_normalised") else facts.get("_renamed", [])
+        facts["_normalised"] = True
+        facts["_renamed"] = self.renamed
         self.facts = facts
         self.repo = facts["_meta"]["repo"]
         self.fns = [hir.Fn(r, facts) for r in facts["fns"]]
@@ -301,7 +306,7 @@ def finish(check, explanation, assumptions, not_decided, extra_cov=None):
             "repo": check.prog.repo,
         },
         "not_decided": not_decided,
-        "notes": check.notes,
+        "notes": check.notes + (["functions analysed under their reviewed names after a rename (unique signature match): %s" % check.prog.renamed] if check.prog.renamed else []),
         "exhaustive": True,
     }
     if extra_cov:
